@@ -17,7 +17,7 @@ EXTENDS Integers, Sequences, FiniteSets, TLC
 CONSTANTS N,          \* number of parameters
           PlainVals,  \* values a plain parameter is declared with
           FreeVals,   \* values the optimiser may assign to a plain parameter
-          UnOps,      \* subset of {"addc", "mulc", "sqrt"}
+          UnOps,      \* subset of {"addc", "mulc", "sqrt", "sq"}
           BinOps,     \* subset of {"add", "sub", "mul", "max"}
           Builders,   \* ways of constructing (from_list, from_dict, yml, csv ...): no effect on the abstract state
           Formats,    \* save/load formats: no effect on the abstract state
@@ -34,7 +34,7 @@ VARIABLES phase,  \* "define" -> "order" -> "ready" -> "run"
 vars == <<phase, defs, order, val, last>>
 View == <<phase, defs, order, val>>
 
-AllUnOps == {"addc", "mulc", "sqrt"}
+AllUnOps == {"addc", "mulc", "sqrt", "sq"}
 AllBinOps == {"add", "sub", "mul", "max"}
 Commutative == {"add", "mul", "max"}
 ASSUME UnOps \subseteq AllUnOps /\ BinOps \subseteq AllBinOps /\ N \in 1..6 /\ Algo \in {"spec", "onepass"}
@@ -57,6 +57,7 @@ Max(x, y) == IF x < y THEN y ELSE x
 Apply(d, v) == CASE d.op = "addc" -> v[d.a] + 1            \* $a + 1
                  [] d.op = "mulc" -> 2 * v[d.a]            \* 2 * $a
                  [] d.op = "sqrt" -> Abs(v[d.a])           \* sqrt(square($a))
+                 [] d.op = "sq"   -> v[d.a] * v[d.a]       \* $a**2  (the referenced VALUE is squared, also when it is negative)
                  [] d.op = "add"  -> v[d.a] + v[d.b]       \* $a + $b
                  [] d.op = "sub"  -> v[d.a] - v[d.b]       \* $a - $b
                  [] d.op = "mul"  -> v[d.a] * v[d.b]       \* $g.a * $h.b
